@@ -211,10 +211,15 @@ def r08_2(ck):
                'nonnegative_accumulate has no negative-sum path that '
                'returns zero')
     # array path clips in place
+    def neg_mask(e):
+        # x < 0 in either spelling
+        return any(isinstance(x, ast.Compare) and len(x.ops) == 1 and any(
+            a[0] == '<' and a[2] == '0' for a in A.cond_atoms(x, True))
+            for x in ast.walk(e))
     clip = any(isinstance(s, ast.Assign) and isinstance(
         s.targets[0], ast.Subscript) and isinstance(
-        s.value, ast.Constant) and s.value.value == 0 and '< 0' in
-        A.unparse(s.targets[0]) for s in A.walk_no_nested(f.node))
+        s.value, ast.Constant) and s.value.value == 0 and neg_mask(
+        s.targets[0].slice) for s in A.walk_no_nested(f.node))
     ck.require(clip, 'R08.2', f, f.node.name,
                'array sums have their negative entries set to 0',
                'the array branch no longer clips negative entries')
